@@ -97,6 +97,12 @@ def kind_inputs():
 
 
 INPUTS.update(kind_inputs())
+# uploads: the shared import nodes of the client module and the input types module (Upload as a variable and inside an input)
+INPUTS["uploads"] = dict(
+    schema="scalar Upload\ninput FileIn { f: Upload name: String more: [Upload!] }\ntype T { id: ID! }\ntype Query { t: T }\n"
+           "type Mutation { up(file: Upload!, meta: FileIn): T uploads(files: [Upload!]!): T plain(meta: FileIn): T }\n",
+    queries="mutation Up($file: Upload!, $meta: FileIn) { up(file: $file, meta: $meta) { id } }\nmutation Ups($files: [Upload!]!) { uploads(files: $files) { id } }\n"
+            "mutation Plain($meta: FileIn) { plain(meta: $meta) { id } }\nquery GetT { t { id } }\n")
 
 
 def sha(b):
@@ -323,7 +329,10 @@ def strip_models(v):
 
 
 def hook_order_cases():
-    return [("mc.testplugins.TagAPlugin", "mc.testplugins.TagBPlugin"), ("mc.testplugins.TagBPlugin", "mc.testplugins.TagAPlugin")]
+    """(plugin entries, expected tag order): class-form entries, module-form entries (a module exposing one plugin) and both mixed, in both orders."""
+    A, B, MA, MB = "mc.testplugins.TagAPlugin", "mc.testplugins.TagBPlugin", "mc.tagmod_a", "mc.tagmod_b"
+    return [((A, B), ["A", "B"]), ((B, A), ["B", "A"]), ((MA, B), ["A", "B"]), ((B, MA), ["B", "A"]), ((A, MB), ["A", "B"]), ((MB, A), ["B", "A"]),
+            ((MA, MB), ["A", "B"]), ((MB, MA), ["B", "A"])]
 
 
 def main(tier):
@@ -335,8 +344,8 @@ def main(tier):
     for iname in INPUTS:
         for ps in (KIND_PLUGIN_SETS if iname.startswith("kind:") else psets):
             cases.append(dict(input=iname, plugins=[PLUGINS[p] for p in ps], pnames=ps))
-        for order in ([] if iname.startswith("kind:") else hook_order_cases()):
-            cases.append(dict(input=iname, plugins=list(order), pnames=("tag:" + order[0][-7], "tag:" + order[1][-7]), hook_order=True))
+        for order, want in ([] if iname.startswith("kind:") else hook_order_cases()):
+            cases.append(dict(input=iname, plugins=list(order), pnames=tuple(("tagmodule:" if "tagmod" in p else "tag:") + w for p, w in zip(order, want)), hook_order=True, want=want))
     results = pool.run_cases(evaluate, cases, timeout=600, progress=200)
     base = {}
     for case, (st, r) in zip(cases, results):
@@ -360,7 +369,7 @@ def main(tier):
             continue
         if case.get("hook_order"):
             log = r["hook_log"]
-            want = [case["plugins"][0][-7], case["plugins"][1][-7]]
+            want = case["want"]
             by_hook = {}
             for hook, tag in log:
                 by_hook.setdefault(hook, []).append(tag)
